@@ -7,7 +7,9 @@ package c17
 // real Get in PROTO and JSON encoding.  Fakes (topo, plugin registry, plugin) live here.
 
 import (
+	"bytes"
 	"context"
+	"encoding/json"
 	"fmt"
 	"strings"
 	"sync"
@@ -27,6 +29,7 @@ import (
 	"github.com/onosproject/onos-config/pkg/store/v2/configuration"
 	"github.com/onosproject/onos-config/pkg/store/v2/proposal"
 	"github.com/onosproject/onos-config/pkg/store/v2/transaction"
+	"github.com/onosproject/onos-config/pkg/utils"
 	pathutils "github.com/onosproject/onos-config/pkg/utils/path"
 	"github.com/onosproject/onos-lib-go/pkg/logging"
 	pb "github.com/openconfig/gnmi/proto/gnmi"
@@ -115,7 +118,7 @@ var (
 
 // envLife: Sets served by one set of stores and controllers before it is replaced (the stores
 // keep every transaction and proposal, so a long-lived environment slows down).
-const envLife = 400
+const envLife = 60
 
 type startStopper interface {
 	Start() error
@@ -184,9 +187,28 @@ func leafPath(target string) *pb.Path {
 
 // e2e runs one Set of /x = g on a fresh target whose model gives /x the type options o, and
 // reports what is stored, what the plugin validated, and what Get returns.
-func e2e(g gval, o mopts) (out string) {
+// answered runs an end-to-end Set; a Set that is not answered within a short deadline is tried
+// once more on a fresh environment with a long deadline, so that a loaded machine is not
+// mistaken for a proposal that never leaves its phase.
+func answered(run func(timeout time.Duration) string) string {
 	envMu.Lock()
 	defer envMu.Unlock()
+	out := run(3 * time.Second)
+	if out == "wedged" {
+		if theEnv != nil {
+			theEnv.stopAll()
+			theEnv = nil
+		}
+		out = run(15 * time.Second)
+	}
+	return out
+}
+
+func e2e(g gval, o mopts) string {
+	return answered(func(timeout time.Duration) string { return e2eOnce(g, o, timeout) })
+}
+
+func e2eOnce(g gval, o mopts, timeout time.Duration) (out string) {
 	e, err := getEnv()
 	if err != nil {
 		return "err env:" + strings.ReplaceAll(err.Error(), " ", "_")
@@ -203,7 +225,7 @@ func e2e(g gval, o mopts) (out string) {
 	e.plugin.lastDoc = nil
 	e.plugin.mu.Unlock()
 
-	ctx, cancel := context.WithTimeout(context.Background(), 3*time.Second)
+	ctx, cancel := context.WithTimeout(context.Background(), timeout)
 	defer cancel()
 	resp, err := e.server.Set(ctx, &pb.SetRequest{Update: []*pb.Update{{Path: leafPath(target), Val: gvalToPb(g)}}})
 	if err != nil {
@@ -274,6 +296,191 @@ func e2e(g gval, o mopts) (out string) {
 		jsonTxt = t
 	}
 	return fmt.Sprintf("ok stored=%s proto=%s json=%s plugin=%s", encTV(stored), protoTxt, jsonTxt, pluginTxt)
+}
+
+type leafItem struct {
+	g gval
+	o mopts
+}
+
+func leafName(i int) string { return fmt.Sprintf("x%d", i) }
+
+func multiPath(target string, i int) *pb.Path {
+	p := &pb.Path{Target: target, Elem: []*pb.PathElem{{Name: "c"}}}
+	if i >= 0 {
+		p.Elem = append(p.Elem, &pb.PathElem{Name: leafName(i)})
+	}
+	return p
+}
+
+// docLeaves extracts the compact texts of the leaves /c/x0 … /c/x(n-1) of a document.
+func docLeaves(doc []byte, n int, stored []ntv) string {
+	var top map[string]json.RawMessage
+	parts := make([]string, n)
+	if err := json.Unmarshal(doc, &top); err != nil {
+		return "bad:" + encB(doc)
+	}
+	var c map[string]json.RawMessage
+	if raw, ok := top["c"]; ok {
+		if err := json.Unmarshal(raw, &c); err != nil {
+			return "bad:" + encB(doc)
+		}
+	}
+	for i := 0; i < n; i++ {
+		raw, ok := c[leafName(i)]
+		switch {
+		case !ok:
+			parts[i] = "none"
+		case floatText(stored[i], true):
+			parts[i] = "float"
+		default:
+			var buf bytes.Buffer
+			if err := json.Compact(&buf, raw); err != nil {
+				return "bad:" + encB(doc)
+			}
+			parts[i] = encB(buf.Bytes())
+		}
+	}
+	return strings.Join(parts, ";")
+}
+
+// e2em: one Set of the leaves /c/x0 … on a fresh target (each with its own model type options),
+// then: the stored values, the document the plugin validated, ONE Get (PROTO) of the container —
+// every value of the response is reported —, one Get (JSON) of the container, and one Get
+// (JSON_IETF) naming every leaf separately, whose documents are all held until the response is
+// complete.
+func e2em(items []leafItem) string {
+	return answered(func(timeout time.Duration) string { return e2emOnce(items, timeout) })
+}
+
+func e2emOnce(items []leafItem, timeout time.Duration) (out string) {
+	e, err := getEnv()
+	if err != nil {
+		return "err env:" + strings.ReplaceAll(err.Error(), " ", "_")
+	}
+	defer func() {
+		if r := recover(); r != nil {
+			out = "panic"
+		}
+	}()
+	e.n++
+	target := fmt.Sprintf("t%d", e.n)
+	rw := pathutils.ReadWritePathMap{}
+	req := &pb.SetRequest{}
+	for i, it := range items {
+		rw["/c/"+leafName(i)] = adminapi.ReadWritePath{TypeOpts: it.o.opts}
+		req.Update = append(req.Update, &pb.Update{Path: multiPath(target, i), Val: gvalToPb(it.g)})
+	}
+	e.plugin.mu.Lock()
+	e.plugin.rw = rw
+	e.plugin.lastDoc = nil
+	e.plugin.mu.Unlock()
+
+	ctx, cancel := context.WithTimeout(context.Background(), timeout)
+	defer cancel()
+	resp, err := e.server.Set(ctx, req)
+	if err != nil {
+		if ctx.Err() != nil {
+			return "wedged"
+		}
+		return "refused " + strings.TrimPrefix(errClass(err), "err ")
+	}
+	info := &configv2.TransactionInfo{}
+	if len(resp.Extension) != 1 || gogoproto.Unmarshal(resp.Extension[0].GetRegisteredExt().GetMsg(), info) != nil {
+		return "err no-transaction-info"
+	}
+	tx, err := e.txs.Get(ctx, info.ID)
+	if err != nil {
+		return "err tx:" + strings.ReplaceAll(err.Error(), " ", "_")
+	}
+	n := len(items)
+	stored := make([]ntv, n)
+	storedTxt := make([]string, n)
+	for i := range items {
+		pv, ok := tx.GetChange().Values[configv2.TargetID(target)].Values["/c/"+leafName(i)]
+		if !ok {
+			return "err value-not-in-transaction"
+		}
+		stored[i] = fromV2(&pv.Value)
+		storedTxt[i] = encTV(stored[i])
+	}
+	e.plugin.mu.Lock()
+	doc := e.plugin.lastDoc
+	e.plugin.mu.Unlock()
+	pluginTxt := "absent"
+	if doc != nil {
+		pluginTxt = docLeaves(doc, n, stored)
+	}
+
+	// one PROTO Get of the container: every update of the response, by path
+	protoTxt := ""
+	if r, err := e.server.Get(ctx, &pb.GetRequest{Path: []*pb.Path{multiPath(target, -1)}, Encoding: pb.Encoding_PROTO}); err != nil {
+		protoTxt = "err:" + strings.ReplaceAll(err.Error(), " ", "_")
+	} else if len(r.Notification) != 1 {
+		protoTxt = fmt.Sprintf("shape:%d", len(r.Notification))
+	} else {
+		got := map[string]string{}
+		for _, u := range r.Notification[0].Update {
+			got[utils.StrPath(u.Path)] = encGVal(pbToGVal(u.Val))
+		}
+		parts := make([]string, n)
+		for i := range items {
+			v, ok := got["/c/"+leafName(i)]
+			if !ok {
+				v = "missing"
+			}
+			parts[i] = v
+		}
+		if len(got) != n {
+			parts = append(parts, fmt.Sprintf("updates:%d", len(got)))
+		}
+		protoTxt = strings.Join(parts, ";")
+	}
+
+	// one JSON Get of the container
+	jsonTxt := ""
+	if r, err := e.server.Get(ctx, &pb.GetRequest{Path: []*pb.Path{multiPath(target, -1)}, Encoding: pb.Encoding_JSON}); err != nil {
+		jsonTxt = "err:" + strings.ReplaceAll(err.Error(), " ", "_")
+	} else if len(r.Notification) != 1 || len(r.Notification[0].Update) != 1 {
+		jsonTxt = fmt.Sprintf("shape:%d", len(r.Notification))
+	} else {
+		jsonTxt = docLeaves(r.Notification[0].Update[0].Val.GetJsonVal(), n, stored)
+	}
+
+	// one JSON_IETF Get naming every leaf: n notifications, all inspected after the call returned
+	var paths []*pb.Path
+	for i := range items {
+		paths = append(paths, multiPath(target, i))
+	}
+	jsonmTxt := ""
+	if r, err := e.server.Get(ctx, &pb.GetRequest{Path: paths, Encoding: pb.Encoding_JSON_IETF}); err != nil {
+		jsonmTxt = "err:" + strings.ReplaceAll(err.Error(), " ", "_")
+	} else if len(r.Notification) != n {
+		jsonmTxt = fmt.Sprintf("shape:%d", len(r.Notification))
+	} else {
+		parts := make([]string, n)
+		for i := range items {
+			us := r.Notification[i].Update
+			if len(us) != 1 {
+				parts[i] = fmt.Sprintf("updates:%d", len(us))
+				continue
+			}
+			// the document of notification i must hold leaf i (and only what matches its path)
+			all := strings.Split(docLeaves(us[0].Val.GetJsonVal(), n, stored), ";")
+			if len(all) != n {
+				parts[i] = strings.Join(all, ";")
+				continue
+			}
+			parts[i] = all[i]
+			for j, t := range all {
+				if j != i && t != "none" {
+					parts[i] += fmt.Sprintf("+x%d", j)
+				}
+			}
+		}
+		jsonmTxt = strings.Join(parts, ";")
+	}
+	return fmt.Sprintf("ok stored=%s proto=%s json=%s jsonm=%s plugin=%s", strings.Join(storedTxt, ";"), protoTxt, jsonTxt, jsonmTxt, pluginTxt)
 }
 
 // e2eReal is the same run without hiding float texts: the monitor's view (real side only).
